@@ -1,12 +1,17 @@
 ------------------------- MODULE HistoryChannelGen -------------------------
-(* E1 + E2 for C35 / C44: the bounded universe of histories as a state machine of a version-control session:
-   edit the working tree (add file / symlink / directory, modify, chmod, change kind, remove, rename), commit,
-   check out an older revision or start a new root, merge another revision, finish (choose tags).
-   TLC (a) explores it exhaustively for small constants and checks the in-spec laws on EVERY reachable state:
-   generated trees and histories are well formed, DropEmptyDirs (declarative) = repeated deletion (operational),
+(* E1 + E2 for C35 / C44: the bounded universe of histories.
+
+   The revision graph of a history is chosen first, from Dag!Dags (every graph over 1..n with ordered parent lists, at
+   most MaxParents parents, the last revision reaching all others) -- one initial state per graph.  The trees are then
+   produced by a version-control session that follows the graph: the working tree of revision r starts as the tree of
+   its left-hand parent merged with the other parents (keep ours / take theirs / add what only they have), is edited
+   (add file / symlink / directory, modify, chmod, change kind with the same object, remove, rename / move, also of
+   directories) and committed with some metadata; after the last revision the tags are placed.
+   TLC (a) explores this exhaustively for small constants and checks the in-spec laws on EVERY reachable state:
+   generated trees and histories are well formed; DropEmptyDirs (declarative) = repeated deletion (operational), is
    idempotent, well formed, keeps every non-directory; the projection does not depend on revision numbers or object
    identities; the ideal channel satisfies every law of C35 / C44 and the laws reject channels that lose an
-   executable bit, keep empty directories apart, exchange merge parents, drop a revision or move a tag;
+   executable bit, keep empty directories apart, exchange merge parents, add a revision or move a tag;
    (b) random-walks it (-simulate) for the larger constants; the final state of every walk (done = TRUE) is a
    history the harness materialises as a real branch. *)
 EXTENDS HistoryChannel, TLC
@@ -20,7 +25,7 @@ CONSTANTS TopNames,      \* names usable at the top level
           MetaChoices,   \* how many metadata records are offered at each commit
           TagNames,
           Pointless,     \* BOOLEAN: commits without any change allowed
-          NewRoots       \* BOOLEAN: additional root revisions allowed
+          NewRoots       \* BOOLEAN: more than one root revision allowed
 
 Paths == {<<n>> : n \in TopNames} \cup {<<d, c>> : d \in DirNames, c \in ChildNames}
 DirOK(p) == (Len(p) = 1 /\ p[1] \in DirNames) \/ (Len(p) = 2 /\ SubDirs)
@@ -30,19 +35,26 @@ GenTree(t) == WFTree(t) /\ PathsOf(t) \subseteq Paths /\ \A e \in t : e.k = "dir
 \* branching into the whole grid
 MetaOf(j) == [msg |-> j % NMsg, who |-> (j \div 2) % NWho, ts |-> (j \div 3) % NTs, tz |-> (j \div 5) % NTz]
 
-VARIABLES h,      \* the history committed so far
-          wt,     \* working tree
-          pp,     \* pending parents of the next commit (<<>> = a new root)
+\* the graphs: the tip (last revision) reaches every revision; one root unless NewRoots
+Plans == {P \in UNION {Dags(n, MaxParents) : n \in MinRevs..MaxRevs} :
+            /\ Ancestry(P, Len(P)) = 1..Len(P)
+            /\ (NewRoots \/ Cardinality(Roots(P)) = 1)}
+
+VARIABLES plan,   \* the revision graph to be built
+          h,      \* the history committed so far
+          wt,     \* working tree of the revision being prepared
           nobj,   \* next fresh object identity
-          nedit,  \* edits since the last commit / checkout
+          nedit,  \* edits since the last commit
           done
-vars == <<h, wt, pp, nobj, nedit, done>>
+vars == <<plan, h, wt, nobj, nedit, done>>
 
-Init == /\ h = [P |-> <<>>, T |-> <<>>, M |-> <<>>, tags |-> {}, tip |-> 0]
-        /\ wt = {} /\ pp = <<>> /\ nobj = 1 /\ nedit = 0 /\ done = FALSE
+Init == /\ plan \in Plans
+        /\ h = [P |-> <<>>, T |-> <<>>, M |-> <<>>, tags |-> {}, tip |-> 0]
+        /\ wt = {} /\ nobj = 1 /\ nedit = 0 /\ done = FALSE
 
-CanEdit == ~done /\ nedit < MaxEdits /\ NRevs(h) < MaxRevs
-Edit(t2) == GenTree(t2) /\ t2 # wt /\ wt' = t2 /\ nedit' = nedit + 1 /\ UNCHANGED <<h, pp, done>>
+Building == ~done /\ NRevs(h) < Len(plan)
+CanEdit == Building /\ nedit < MaxEdits
+Edit(t2) == GenTree(t2) /\ t2 # wt /\ wt' = t2 /\ nedit' = nedit + 1 /\ UNCHANGED <<plan, h, done>>
 Fresh(p, k, c, x) == [p |-> p, k |-> k, c |-> c, x |-> x, o |-> nobj]
 
 Add(p, k, c, x) == /\ CanEdit /\ ~Has(wt, p) /\ IsDirAt(wt, ParentPath(p))
@@ -64,41 +76,41 @@ Moved(t, p, q) == {IF e.p = p \/ PathPrefix(p, e.p) THEN [e EXCEPT !.p = q \o Su
 Rename(p, q) == /\ CanEdit /\ Has(wt, p) /\ ~Has(wt, q) /\ p # q /\ ~PathPrefix(p, q)
                 /\ Edit(Moved(wt, p, q)) /\ UNCHANGED nobj
 
-Commit(k) == /\ ~done /\ NRevs(h) < MaxRevs
-             /\ (Pointless \/ nedit > 0 \/ Len(pp) > 1 \/ (pp = <<>> /\ NRevs(h) = 0))
-             /\ h' = [h EXCEPT !.P = Append(@, pp), !.T = Append(@, wt),
-                               !.M = Append(@, MetaOf(7 * NRevs(h) + 3 * nobj + nedit + k)), !.tip = NRevs(h) + 1]
-             /\ pp' = <<NRevs(h) + 1>> /\ nedit' = 0 /\ UNCHANGED <<wt, nobj, done>>
-Clean == ~done /\ nedit = 0 /\ Len(pp) <= 1 /\ NRevs(h) < MaxRevs
-Checkout(r) == /\ Clean /\ r \in RevsOf(h) /\ pp # <<r>>
-               /\ wt' = h.T[r] /\ pp' = <<r>> /\ UNCHANGED <<h, nobj, nedit, done>>
-NewRoot == /\ Clean /\ NewRoots /\ Len(pp) = 1
-           /\ wt' = {} /\ pp' = <<>> /\ UNCHANGED <<h, nobj, nedit, done>>
-\* merge revision r into the working tree: keep ours, take theirs, or add what only they have
+\* merging revision trees: keep ours, take theirs, or add what only they have
 UnionTree(t1, t2) == LET top == t1 \cup {e \in t2 : Len(e.p) = 1 /\ e.p \notin PathsOf(t1) /\ e.o \notin ObjsOf(t1)} IN
     top \cup {e \in t2 : /\ Len(e.p) = 2 /\ e.p \notin PathsOf(top) /\ e.o \notin ObjsOf(top)
                          /\ \E d \in top : d.p = ParentPath(e.p) /\ d.k = "directory" /\ d \in t2}
 MergeTree(t1, t2, how) == CASE how = "ours" -> t1 [] how = "theirs" -> t2 [] how = "union" -> UnionTree(t1, t2)
-Merge(r, how) == /\ ~done /\ nedit = 0 /\ pp # <<>> /\ Len(pp) < MaxParents /\ NRevs(h) < MaxRevs
-                 /\ r \in RevsOf(h) /\ r \notin AncestryOf(h.P, SeqRange(pp))
-                 /\ GenTree(MergeTree(wt, h.T[r], how))
-                 /\ wt' = MergeTree(wt, h.T[r], how) /\ pp' = Append(pp, r) /\ UNCHANGED <<h, nobj, nedit, done>>
-\* the session ends right after a commit; tags are placed on revisions of the branch; what the branch does not
-\* reach is dropped
-Finish(tg) == /\ ~done /\ nedit = 0 /\ h.tip > 0 /\ pp = <<h.tip>> /\ Cardinality(TipAncestry(h)) >= MinRevs
+Hows == {"ours", "theirs", "union"}
+\* the working tree revision r starts from, given the trees T of the earlier revisions
+RECURSIVE MergeAll(_, _, _, _)
+MergeAll(t, T, ps, how) == IF ps = <<>> THEN t ELSE MergeAll(MergeTree(t, T[Head(ps)], how), T, Tail(ps), how)
+StartTree(T, ps, how) == IF ps = <<>> THEN {} ELSE MergeAll(T[ps[1]], T, Tail(ps), how)
+
+\* commit the working tree as the next revision of the plan and prepare the one after it
+Commit(k, how) ==
+    LET r == NRevs(h) + 1
+        T2 == Append(h.T, wt) IN
+    /\ Building
+    /\ (Pointless \/ nedit > 0 \/ Len(plan[r]) > 1 \/ (r = 1))
+    /\ h' = [h EXCEPT !.P = Append(@, plan[r]), !.T = T2, !.M = Append(@, MetaOf(7 * r + 3 * nobj + nedit + k)), !.tip = r]
+    /\ IF r < Len(plan)
+       THEN /\ (Len(plan[r + 1]) <= 1 => how = "ours")              \* the choice only matters for a merge
+            /\ GenTree(StartTree(T2, plan[r + 1], how)) /\ wt' = StartTree(T2, plan[r + 1], how)
+       ELSE how = "ours" /\ wt' = wt
+    /\ nedit' = 0 /\ UNCHANGED <<plan, nobj, done>>
+\* the session ends when the plan is complete; tags are placed on revisions of the branch
+Finish(tg) == /\ ~done /\ NRevs(h) = Len(plan)
               /\ \A n \in TagNames : tg[n] = 0 \/ tg[n] \in TipAncestry(h)
               /\ h' = BranchPart([h EXCEPT !.tags = {[name |-> n, rev |-> tg[n]] : n \in {n \in TagNames : tg[n] # 0}}])
-              /\ done' = TRUE /\ UNCHANGED <<wt, pp, nobj, nedit>>
+              /\ done' = TRUE /\ UNCHANGED <<plan, wt, nobj, nedit>>
 
 Next == \/ \E p \in Paths, c \in 1..NContents, x \in BOOLEAN : AddFile(p, c, x)
         \/ \E p \in Paths, c \in 1..NContents : AddLink(p, c) \/ Modify(p, c)
         \/ \E p \in Paths : Mkdir(p) \/ Chmod(p) \/ Remove(p)
         \/ \E p \in Paths, k \in Kinds, c \in 0..NContents : ChangeKind(p, k, c)
         \/ \E p, q \in Paths : Rename(p, q)
-        \/ \E k \in 0..(MetaChoices - 1) : Commit(k)
-        \/ \E r \in 1..MaxRevs : Checkout(r)
-        \/ NewRoot
-        \/ \E r \in 1..MaxRevs, how \in {"ours", "theirs", "union"} : Merge(r, how)
+        \/ \E k \in 0..(MetaChoices - 1), how \in Hows : Commit(k, how)
         \/ \E tg \in [TagNames -> 0..MaxRevs] : Finish(tg)
 
 (* ------------------------------------------------------------------ in-spec laws (INVARIANTS) *)
